@@ -1,4 +1,5 @@
 import TorrentVerif.Proofs.Merkle
+import TorrentVerif.Proofs.CreatorsHybrid
 /-
   C03 — hybrid torrents: the v1 view and the v2 view describe the same payload
   (file-level part: what the hybrid hashers produce for one file, and the single-file rule
@@ -79,5 +80,178 @@ example : Impl.assemblerSinglePieces toyH toyH20 2 1 2 [1,2,3,4,5,6,7,8,9]
   rw [hybrid_single_file_tail_assembler toyH toyH20 2 1 2 _ (by decide) (by decide)
     (by intro x; simp [toyH20])]
   simp [chunks]
+
+end TorrentVerif.Props.C03
+
+/-! ### whole hybrid metafiles (creators of `Model/Creators.lean`)
+
+  `r` is the value handed to `pyben.dump`, `b` the bytes written; both hybrid creators are
+  covered by the hypothesis `hc`. `Spec.isPadEntry`, `Spec.entryLength`, `Spec.entryPath`,
+  `Spec.treeLeaves`, `Spec.lengthsSum`, `Spec.filesStream` read a metafile value back
+  (`Model/Creators.lean`). Piece length `o.pieceLength = bpp · B`. -/
+namespace TorrentVerif.Props.C03
+open TorrentVerif TorrentVerif.Toy TorrentVerif.Ex.G7
+
+/-- In a hybrid metafile of a directory (names non-empty, `/`-free, distinct among siblings),
+    written by either hybrid creator under any enumeration order, the non-padding entries of
+    the v1 `files` list are the leaves of the v2 file tree: same order, same path components,
+    same lengths. -/
+theorem hybrid_files_are_leaves (o : CreateOpts) (H H1 : Bytes → Bytes) (B hs bpp : Nat)
+    (hB : 0 < B) (hbpp : 0 < bpp) (hpl : o.pieceLength = bpp * B)
+    (enum : List (Bytes × Impl.FTree) → List (Bytes × Impl.FTree)) (henum : ∀ l, (enum l).Perm l)
+    (es : List (Bytes × Node)) (hwn : Spec.WellNamed (.dir es)) (r : BVal) (b : Bytes)
+    (hc : Impl.createHybridClass o H H1 B hs enum (.dir es) = some (r, b) ∨
+          Impl.createAsm true o H H1 B hs enum (.dir es) = some (r, b)) :
+    ∃ fl tree, r.infoGet? K.files = some (.list fl) ∧ r.infoGet? K.fileTree = some tree ∧
+      (fl.filter (fun e => !Spec.isPadEntry e)).map (fun e => (Spec.entryPath e, Spec.entryLength e))
+        = (Spec.treeLeaves [] tree).map (fun x => (some x.1, Spec.entryLength x.2)) := by
+  have h := hybrid_dir_reduce o H H1 B hs bpp hB hbpp hpl enum es r b hc
+  obtain ⟨_, hk⟩ := createHybridClass_dir o H H1 B hs bpp hB hbpp hpl enum es r b h
+  refine ⟨_, _, hk.files, hk.fileTree, ?_⟩
+  simp only [Impl.treeOf, Bool.false_eq_true, if_false]
+  rw [v1Entries_filter, treeLeaves_treeVal _ _ _ (traverse_noEmptyKey enum henum _ hwn)]
+  simp [List.map_map, Function.comp_def, entryPath_fileEntry, entryLength_fileEntry,
+    entryLength_leafProps]
+
+/-- met by: the example tree (nested, an empty file, files needing padding), toy hashes,
+    blocks of 2 bytes, 2 blocks per piece, enumerated backwards; the creator succeeds -/
+example : ∃ r b, Impl.createHybridClass exOpts toyH toyH1 2 1 List.reverse exTree = some (r, b) ∧
+    ∃ fl tree, r.infoGet? K.files = some (.list fl) ∧ r.infoGet? K.fileTree = some tree ∧
+      (fl.filter (fun e => !Spec.isPadEntry e)).map (fun e => (Spec.entryPath e, Spec.entryLength e))
+        = (Spec.treeLeaves [] tree).map (fun x => (some x.1, Spec.entryLength x.2)) := by
+  obtain ⟨r, b, h⟩ := createHybridClass_some exOpts toyH toyH1 2 1 2 (by decide) (by decide) rfl
+    List.reverse exTree
+  exact ⟨r, b, h, hybrid_files_are_leaves exOpts toyH toyH1 2 1 2 (by decide) (by decide) rfl
+    List.reverse List.reverse_perm _ exTree_wellNamed r b (Or.inl h)⟩
+
+/-- Every padding entry of the `files` list directly follows the entry of a file whose length
+    `s` is not a multiple of the piece length, and is exactly the BEP 47 padding entry of the
+    gap to the next piece boundary: `{"attr": "p", "length": gap, "path": [".pad", str(gap)]}`
+    with `gap = (pl − s mod pl) mod pl ≠ 0`. -/
+theorem hybrid_padding_marked (o : CreateOpts) (H H1 : Bytes → Bytes) (B hs bpp : Nat)
+    (hB : 0 < B) (hbpp : 0 < bpp) (hpl : o.pieceLength = bpp * B)
+    (enum : List (Bytes × Impl.FTree) → List (Bytes × Impl.FTree))
+    (es : List (Bytes × Node)) (r : BVal) (b : Bytes)
+    (hc : Impl.createHybridClass o H H1 B hs enum (.dir es) = some (r, b) ∨
+          Impl.createAsm true o H H1 B hs enum (.dir es) = some (r, b)) :
+    ∃ fl, r.infoGet? K.files = some (.list fl) ∧
+      ∀ pre e suf, fl = pre ++ e :: suf → Spec.isPadEntry e = true →
+        ∃ pre' f s, pre = pre' ++ [f] ∧ Spec.isPadEntry f = false ∧ Spec.entryLength f = some s ∧
+          gap o.pieceLength s ≠ 0 ∧
+          e = .dict [(K.attr, .str [112]), (K.length, .int (gap o.pieceLength s)),
+                     (K.path, .list [.str [46, 112, 97, 100], .str (natDec (gap o.pieceLength s))])] := by
+  have h := hybrid_dir_reduce o H H1 B hs bpp hB hbpp hpl enum es r b hc
+  obtain ⟨_, hk⟩ := createHybridClass_dir o H H1 B hs bpp hB hbpp hpl enum es r b h
+  refine ⟨_, hk.files, ?_⟩
+  intro pre e suf hsplit hp
+  exact v1Entries_pad _ _ pre suf e hsplit hp
+
+example : ∃ r b, Impl.createAsm true exOpts toyH toyH1 2 1 id exTree = some (r, b) ∧
+    ∃ fl, r.infoGet? K.files = some (.list fl) ∧
+      ∀ pre e suf, fl = pre ++ e :: suf → Spec.isPadEntry e = true →
+        ∃ pre' f s, pre = pre' ++ [f] ∧ Spec.isPadEntry f = false ∧ Spec.entryLength f = some s ∧
+          gap exOpts.pieceLength s ≠ 0 ∧
+          e = .dict [(K.attr, .str [112]), (K.length, .int (gap exOpts.pieceLength s)),
+                     (K.path, .list [.str [46, 112, 97, 100], .str (natDec (gap exOpts.pieceLength s))])] := by
+  obtain ⟨r, b, h⟩ := createHybridClass_some exOpts toyH toyH1 2 1 2 (by decide) (by decide) rfl id exTree
+  have h' : Impl.createAsm true exOpts toyH toyH1 2 1 id exTree = some (r, b) := by
+    rw [show exTree = .dir _ from rfl, createAsm_true_dir_eq exOpts toyH toyH1 2 1 2 (by decide) (by decide) rfl]
+    exact h
+  exact ⟨r, b, h', hybrid_padding_marked exOpts toyH toyH1 2 1 2 (by decide) (by decide) rfl id _ r b
+    (Or.inr h')⟩
+
+/-- Every non-padding entry of the `files` list starts on a piece boundary of the v1 byte
+    stream the listed lengths describe: the lengths of all entries before it (files and
+    padding) add up to a multiple of the piece length. -/
+theorem hybrid_aligned (o : CreateOpts) (H H1 : Bytes → Bytes) (B hs bpp : Nat)
+    (hB : 0 < B) (hbpp : 0 < bpp) (hpl : o.pieceLength = bpp * B)
+    (enum : List (Bytes × Impl.FTree) → List (Bytes × Impl.FTree))
+    (es : List (Bytes × Node)) (r : BVal) (b : Bytes)
+    (hc : Impl.createHybridClass o H H1 B hs enum (.dir es) = some (r, b) ∨
+          Impl.createAsm true o H H1 B hs enum (.dir es) = some (r, b)) :
+    ∃ fl, r.infoGet? K.files = some (.list fl) ∧
+      ∀ pre e suf, fl = pre ++ e :: suf → Spec.isPadEntry e = false →
+        ∃ n, Spec.lengthsSum pre = some n ∧ n % o.pieceLength = 0 := by
+  have h := hybrid_dir_reduce o H H1 B hs bpp hB hbpp hpl enum es r b hc
+  obtain ⟨_, hk⟩ := createHybridClass_dir o H H1 B hs bpp hB hbpp hpl enum es r b h
+  refine ⟨_, hk.files, ?_⟩
+  intro pre e suf hsplit hp
+  exact v1Entries_aligned _ (by rw [hpl]; exact Nat.mul_pos hbpp hB) _ pre suf e hsplit hp
+
+example : ∃ r b, Impl.createHybridClass exOpts toyH toyH1 2 1 id exTree = some (r, b) ∧
+    ∃ fl, r.infoGet? K.files = some (.list fl) ∧
+      ∀ pre e suf, fl = pre ++ e :: suf → Spec.isPadEntry e = false →
+        ∃ n, Spec.lengthsSum pre = some n ∧ n % exOpts.pieceLength = 0 := by
+  obtain ⟨r, b, h⟩ := createHybridClass_some exOpts toyH toyH1 2 1 2 (by decide) (by decide) rfl id exTree
+  exact ⟨r, b, h, hybrid_aligned exOpts toyH toyH1 2 1 2 (by decide) (by decide) rfl id _ r b (Or.inl h)⟩
+
+/-- The v1 piece string of a hybrid metafile of a directory is the concatenated v1 hashes of
+    the successive piece-length slices of the byte stream its own `files` list describes over
+    the content tree: a padding entry stands for that many zero bytes, any other entry for the
+    bytes of the file at the listed path (which has exactly the listed length). So a v1-only
+    client checking `pieces` against `files` verifies the same files a v2 client does. -/
+theorem hybrid_pieces (o : CreateOpts) (H H1 : Bytes → Bytes) (B hs bpp : Nat)
+    (hB : 0 < B) (hbpp : 0 < bpp) (hpl : o.pieceLength = bpp * B)
+    (enum : List (Bytes × Impl.FTree) → List (Bytes × Impl.FTree)) (henum : ∀ l, (enum l).Perm l)
+    (es : List (Bytes × Node)) (hwn : Spec.WellNamed (.dir es)) (r : BVal) (b : Bytes)
+    (hc : Impl.createHybridClass o H H1 B hs enum (.dir es) = some (r, b) ∨
+          Impl.createAsm true o H H1 B hs enum (.dir es) = some (r, b)) :
+    ∃ fl s, r.infoGet? K.files = some (.list fl) ∧ Spec.filesStream (.dir es) fl = some s ∧
+      r.infoGet? K.pieces = some (.str ((chunks o.pieceLength s).map H1).flatten) ∧
+      r.infoGet? K.length = none := by
+  have h := hybrid_dir_reduce o H H1 B hs bpp hB hbpp hpl enum es r b hc
+  obtain ⟨_, hk⟩ := createHybridClass_dir o H H1 B hs bpp hB hbpp hpl enum es r b h
+  exact ⟨_, _, hk.files,
+    filesStream_aligned (.dir es) o.pieceLength _ (traverse_fileAt enum henum _ hwn),
+    hk.pieces, hk.length⟩
+
+example : ∃ r b, Impl.createHybridClass exOpts toyH toyH1 2 1 List.reverse exTree = some (r, b) ∧
+    ∃ fl s, r.infoGet? K.files = some (.list fl) ∧ Spec.filesStream exTree fl = some s ∧
+      r.infoGet? K.pieces = some (.str ((chunks exOpts.pieceLength s).map toyH1).flatten) ∧
+      r.infoGet? K.length = none := by
+  obtain ⟨r, b, h⟩ := createHybridClass_some exOpts toyH toyH1 2 1 2 (by decide) (by decide) rfl
+    List.reverse exTree
+  exact ⟨r, b, h, hybrid_pieces exOpts toyH toyH1 2 1 2 (by decide) (by decide) rfl
+    List.reverse List.reverse_perm _ exTree_wellNamed r b (Or.inl h)⟩
+
+/-- Single-file hybrid metafile (either creator; for `TorrentAssembler` the v1 hash must have
+    20-byte digests, as SHA-1 has): `info.length` is the file length, there is no `files` list,
+    the file tree has the single leaf `name` (non-empty) with that length, and `info.pieces` is the plain
+    BEP 3 piece string of the file alone — the last piece is hashed without padding. -/
+theorem hybrid_single (o : CreateOpts) (H H1 : Bytes → Bytes) (B hs bpp : Nat)
+    (hB : 0 < B) (hbpp : 0 < bpp) (hpl : o.pieceLength = bpp * B)
+    (hname : o.name ≠ [])
+    (enum : List (Bytes × Impl.FTree) → List (Bytes × Impl.FTree)) (d : Bytes) (r : BVal) (b : Bytes)
+    (hc : Impl.createHybridClass o H H1 B hs enum (.file d) = some (r, b) ∨
+          ((∀ x, (H1 x).length = 20) ∧ Impl.createAsm true o H H1 B hs enum (.file d) = some (r, b))) :
+    r.infoGet? K.length = some (.int d.length) ∧ r.infoGet? K.files = none ∧
+    r.infoGet? K.pieces = some (.str ((chunks o.pieceLength d).map H1).flatten) ∧
+    ∃ tree, r.infoGet? K.fileTree = some tree ∧
+      (Spec.treeLeaves [] tree).map (fun x => (x.1, Spec.entryLength x.2)) = [([o.name], some d.length)] := by
+  have h : Impl.createHybridClass o H H1 B hs enum (.file d) = some (r, b) := by
+    rcases hc with hc | ⟨h20, hc⟩
+    · exact hc
+    · rwa [createAsm_true_eq o H H1 B hs bpp hB hbpp hpl h20] at hc
+  rw [createHybridClass_file o H H1 B hs bpp hB hbpp hpl] at h
+  obtain ⟨hs', _⟩ := written_some _ r b h
+  have hk := hybrid_keys _ _ _ _ _ r hs'
+  refine ⟨hk.length, hk.files, hk.pieces, _, hk.fileTree, ?_⟩
+  simp [Impl.treeOf, Spec.treeLeaves, Spec.treeLeavesD, leafVal_eq, entryLength_leafProps, hname]
+
+/-- met by: a single file of 9 bytes, piece length 4 (last piece short), both creators -/
+example : (∃ r b, Impl.createHybridClass exOpts toyH toyH1 2 1 id exFile = some (r, b) ∧
+      r.infoGet? K.pieces = some (.str (toyH1 [1,2,3,4] ++ toyH1 [5,6,7,8] ++ toyH1 [9]))) ∧
+    (∃ r b, Impl.createAsm true exOpts toyH toyH20 2 1 id exFile = some (r, b) ∧
+      r.infoGet? K.length = some (.int 9)) := by
+  constructor
+  · obtain ⟨r, b, h⟩ := createHybridClass_some exOpts toyH toyH1 2 1 2 (by decide) (by decide) rfl id exFile
+    have := (hybrid_single exOpts toyH toyH1 2 1 2 (by decide) (by decide) rfl (by decide) id _ r b (Or.inl h)).2.2.1
+    refine ⟨r, b, h, ?_⟩
+    rw [this]
+    simp [exOpts, chunks]
+  · have h20 : ∀ x, (toyH20 x).length = 20 := by intro x; simp [toyH20]
+    obtain ⟨r, b, h⟩ := createAsm_true_some exOpts toyH toyH20 2 1 2 (by decide) (by decide) rfl h20 id exFile
+    exact ⟨r, b, h, (hybrid_single exOpts toyH toyH20 2 1 2 (by decide) (by decide) rfl (by decide) id _ r b
+      (Or.inr ⟨h20, h⟩)).1⟩
 
 end TorrentVerif.Props.C03
